@@ -325,10 +325,11 @@ func (am *AccountingManager) StopSession(sessionID string, terminateCause uint32
 
 	am.verifCrashPoint(4, sessionID)
 	// Send Accounting-Stop
-	if err := am.sendAccountingStop(session, terminateCause); err != nil {
+	stopErr := am.sendAccountingStop(session, terminateCause)
+	if stopErr != nil {
 		am.logger.Warn("Failed to send Accounting-Stop immediately, queued for retry",
 			zap.String("session_id", sessionID),
-			zap.Error(err),
+			zap.Error(stopErr),
 		)
 	}
 
@@ -339,8 +340,12 @@ func (am *AccountingManager) StopSession(sessionID string, terminateCause uint32
 	am.sessionsMu.Unlock()
 
 	am.verifCrashPoint(6, sessionID)
-	// Remove persisted session
-	am.removePersistedSession(sessionID)
+	// Remove persisted session. If the Stop could only be queued (in memory), the persisted
+	// session (marked StopPending) stays until the queued Stop is acknowledged, so that a
+	// crash before then is recovered on startup instead of losing the Stop.
+	if stopErr == nil {
+		am.removePersistedSession(sessionID)
+	}
 
 	return nil
 }
@@ -604,6 +609,14 @@ func (am *AccountingManager) processPendingRecord(record *PendingAcctRecord) {
 		switch record.Request.StatusType {
 		case AcctStatusStop:
 			atomic.AddUint64(&am.stopTotal, 1)
+			// The Stop is acknowledged: drop the persisted session that StopSession kept
+			// for crash recovery (unless the id is in use by an active session again).
+			am.sessionsMu.RLock()
+			_, active := am.sessions[record.Request.SessionID]
+			am.sessionsMu.RUnlock()
+			if !active {
+				am.removePersistedSession(record.Request.SessionID)
+			}
 		case AcctStatusInterimUpdate:
 			atomic.AddUint64(&am.interimTotal, 1)
 		}
